@@ -65,6 +65,7 @@ class Driver:
         self.flush_ops = []  # indices of ops that end with a completed flush of the file
         self.nextver = {}
         self.read_problem = None
+        self.stale = []      # store objects that were pickled and are still alive while their unpickled copy is in use
         if cfg['store'] == 'npy':
             self.file = os.path.join(workdir, 'x.npy')
             self.s = st.NpyStore(os.path.join(workdir, 'x'), cfg['bs'])
@@ -93,6 +94,11 @@ class Driver:
         ops += [('clear',), ('flush',), ('reopen',), ('read',)]
         if self.cfg['store'] == 'npy':
             ops.append(('pickle',))
+            if self.cfg.get('stale'):
+                if not self.stale:
+                    ops.append(('pickle_keep',))
+                else:
+                    ops.append(('close_stale',))
         else:
             if n > 0:
                 ops.append(('readd', n - 1))
@@ -167,11 +173,20 @@ class Driver:
             data = pickle.dumps(self.s)
             self.s.close()
             self.s = pickle.loads(data)
+        elif k == 'pickle_keep':
+            # the unpickled copy is used from now on, the pickled object stays alive (a second handle on the same file)
+            self.stale.append(self.s)
+            self.s = pickle.loads(pickle.dumps(self.s))
+        elif k == 'close_stale':
+            # the outdated handle is closed (explicitly here; garbage collection does the same)
+            for o in self.stale:
+                o.close()
+            self.stale = []
         else:
             raise KeyError(op)
         self.marks.append(len(crashfs.LOG))
         self.contents.append(tuple(self.ref))
-        if k in ('flush', 'reopen', 'pickle', 'save'):
+        if k in ('flush', 'reopen', 'pickle', 'pickle_keep', 'save'):
             # save() pickles the stores, NpyArray.__getstate__ flushes
             self.flush_ops.append(len(self.marks) - 1)
 
@@ -412,15 +427,18 @@ def run(ctx):
         big = [(st_, row, bs) for st_ in ('npy', 'pool') for row in (0, 2) for bs in (5, 50)]
     for st_, row, bs in big:
         cfgs.append({'store': st_, 'dtype': 'f8', 'row': row, 'bs': bs})
+    # a pickled store object kept alive next to its unpickled copy, and closed later
+    for row, bs in ([(0, 1)] if q else [(0, 1), (2, 2)]):
+        cfgs.append({'store': 'npy', 'dtype': 'f8', 'row': row, 'bs': bs, 'stale': True})
     # batch indices given as NumPy integers
     for st_, row, bs in ([('npy', 0, 2), ('pool', 2, 1)] if q else [('npy', 0, 2), ('pool', 2, 1), ('npy', 2, 1), ('pool', 0, 2)]):
         cfgs.append({'store': st_, 'dtype': 'f8', 'row': row, 'bs': bs, 'idx': 'npint'})
     cases = []
     for cfg in cfgs:
         d = depth
-        if not q and (cfg['bs'] > 2 or cfg.get('idx') or not (cfg['dtype'] == 'f8' or (cfg['row'] == 0 and cfg['bs'] == 2))):
+        if not q and (cfg['bs'] > 2 or cfg.get('idx') or cfg.get('stale') or not (cfg['dtype'] == 'f8' or (cfg['row'] == 0 and cfg['bs'] == 2))):
             d = depth - 1     # the deepest level only for a sub-family of configurations (stated in evidence)
-        if q and cfg['dtype'] == 'f8' and not cfg.get('idx') and (cfg['store'], cfg['row'], cfg['bs']) in (('npy', 0, 1), ('pool', 2, 2)):
+        if q and cfg['dtype'] == 'f8' and not cfg.get('idx') and not cfg.get('stale') and (cfg['store'], cfg['row'], cfg['bs']) in (('npy', 0, 1), ('pool', 2, 2)):
             d = depth + 1     # one level deeper for two configurations: flush, append, read, overwrite, kill needs it
         cases.append({'kind': 'config', 'cfg': cfg, 'depth': d, 'validate_depth': 2 if q else 3})
     res = []
@@ -448,7 +466,8 @@ def run(ctx):
                 '{append, overwrite(first|last), delete-last, clear, flush, close+reopen, read-all, pickle round trip | pool: '
                 're-add, save} per store configuration (NpyStore|ArrayPool store x dtype x row shape x batch_size 1, 2, plus '
                 'float64 configurations with batch_size 5 and 50, where the row count grows a decimal digit, and configurations '
-                'whose batch indices are NumPy integers); '
+                'whose batch indices are NumPy integers, and configurations with the extra operations pickle-and-keep-the-original / '
+                'close-the-outdated-original); '
                 'crash images: one per raw file operation (write/truncate/memmap store) of the last operation of every '
                 'history, judged when a flush completed before it; evaluations = histories + crash images; all distinct '
                 'by construction' % depth)
